@@ -130,6 +130,10 @@ instance : PyAlg NVal where
   mul := NVal.arith (· * ·)
   div := NVal.div
   pow := NVal.pow
+  mod := fun _ _ => .error "unsupported"
+  floordiv := fun _ _ => .error "unsupported"
+  range := fun _ => .error "unsupported"
+  toNat := fun _ => .error "unsupported"
   lt := NVal.lt
   le := NVal.le
   len := NVal.len
